@@ -410,34 +410,54 @@ fn compute_candidate_from_operation<'vertex, Vertex: Debug + Clone + 'vertex>(
         }
         Operation::LessThan(_, _) => {
             compute_candidate_from_tagged_value!(iterator, initial_candidate, candidate, value, {
-                candidate.intersect(CandidateValue::Range(Range::with_end(
-                    Bound::Excluded(value),
-                    true, // nullability is handled in the initial_candidate
-                )));
+                if matches!(value, FieldValue::Null) {
+                    // Ordering comparisons against `null` never hold, so no value can match.
+                    candidate = CandidateValue::Impossible;
+                } else {
+                    candidate.intersect(CandidateValue::Range(Range::with_end(
+                        Bound::Excluded(value),
+                        true, // nullability is handled in the initial_candidate
+                    )));
+                }
             })
         }
         Operation::LessThanOrEqual(_, _) => {
             compute_candidate_from_tagged_value!(iterator, initial_candidate, candidate, value, {
-                candidate.intersect(CandidateValue::Range(Range::with_end(
-                    Bound::Included(value),
-                    true, // nullability is handled in the initial_candidate
-                )));
+                if matches!(value, FieldValue::Null) {
+                    // Ordering comparisons against `null` never hold, so no value can match.
+                    candidate = CandidateValue::Impossible;
+                } else {
+                    candidate.intersect(CandidateValue::Range(Range::with_end(
+                        Bound::Included(value),
+                        true, // nullability is handled in the initial_candidate
+                    )));
+                }
             })
         }
         Operation::GreaterThan(_, _) => {
             compute_candidate_from_tagged_value!(iterator, initial_candidate, candidate, value, {
-                candidate.intersect(CandidateValue::Range(Range::with_start(
-                    Bound::Excluded(value),
-                    true, // nullability is handled in the initial_candidate
-                )));
+                if matches!(value, FieldValue::Null) {
+                    // Ordering comparisons against `null` never hold, so no value can match.
+                    candidate = CandidateValue::Impossible;
+                } else {
+                    candidate.intersect(CandidateValue::Range(Range::with_start(
+                        Bound::Excluded(value),
+                        true, // nullability is handled in the initial_candidate
+                    )));
+                }
             })
         }
         Operation::GreaterThanOrEqual(_, _) => {
             compute_candidate_from_tagged_value!(iterator, initial_candidate, candidate, value, {
-                candidate.intersect(CandidateValue::Range(Range::with_end(
-                    Bound::Included(value),
-                    true, // nullability is handled in the initial_candidate
-                )));
+                if matches!(value, FieldValue::Null) {
+                    // Ordering comparisons against `null` never hold, so no value can match.
+                    candidate = CandidateValue::Impossible;
+                } else {
+                    candidate.intersect(CandidateValue::Range(Range::with_end(
+                        Bound::Included(value),
+                        true, // nullability is handled in the initial_candidate
+                    )));
+                }
             })
         }
         Operation::OneOf(_, _) => {
